@@ -214,6 +214,12 @@ def oracle_call(case):
         Z[:, 1:] += 0.7 * Z[:, :1]
         names = ['c%d' % j for j in range(d)] if case['seed'] % 2 else list(range(d))
         df = pd.DataFrame(Z.copy(), columns=names)
+        if case['seed'] % 3 == 0:
+            # columns of another numeric dtype (counts, single precision): the caller's frame keeps them
+            df[names[0]] = np.round(df[names[0]] * 10).astype('int64')
+            df[names[-1]] = df[names[-1]].astype('float32')
+            Z = df.to_numpy().astype(float)
+            cls.append('mixed-dtypes')
         if name == 'gauss_fit':
             kind = cont if cont in ('frame', 'ndarray', 'ndarray_f', 'ndarray_ro', 'ndarray_f_ro') else 'frame'
             arg = df if kind == 'frame' else as_array(Z, kind)
